@@ -180,7 +180,7 @@ def sim_schedules(chk, name, algs, programs, maxrun, maxreload, num, depth, seed
 def to_jobs(scheds, start=0):
     jobs = []
     for i, s in enumerate(scheds):
-        jobs.append({'id': start + i, 'desc': prog_to_desc(s['prog']), 'targets': TARGETS, 'events': sched_to_events(s['h']), 'drain': True})
+        jobs.append({'id': start + i, 'desc': prog_to_desc(s['prog']), 'targets': TARGETS, 'events': sched_to_events(s['h']), 'drain': True, 'same_names': (start + i) % 4 == 3})
     return jobs
 
 
@@ -211,7 +211,7 @@ def validate_and_collect(chk, pid, jobs_by_algs):
         for r in rows['CLAUSE']:
             _tag, tid, line, ev, bad = r
             for clause in sorted(bad['set']):
-                if not clause.startswith(pid + '.'):
+                if not clause.startswith(pid + '.') and not os.environ.get('VERIF_ALL_CLAUSES'):
                     continue
                 job = byid[tid]
                 kinds = [e['ev'] for e in job['events']]
